@@ -180,8 +180,12 @@ def run_machine(sc):
         i = name_no - 50
         now = "s1" if (late or chained) else "s0"
         # (event_data.state as it was when the callback ran: the state the machine was in at that moment)
+        # (and the keyword arguments the user sent are still exactly the user's: the built-in values are added to
+        # a copy, not to the trigger's own dictionary)
+        reserved = {"event_data", "machine", "event", "model", "transition", "state", "source", "target"}
         ok = [lambda x: isinstance(x, EventData) and x.transition.source.id == src_ and snap[0].id == now
-              and x.source.id == src_ and x.target.id == tgt_,
+              and x.source.id == src_ and x.target.id == tgt_
+              and set(x.trigger_data.kwargs) == {k_ for k_ in kwargs if k_ not in reserved},
               lambda x: x.current_state_value == sm.current_state_value and type(x).__name__ in ("M", "weakproxy", "weakcallableproxy"),
               lambda x: str(x) == ev_,
               lambda x: x is sm.model,
